@@ -373,4 +373,29 @@ theorem source_varintMaxDepth_is_model (depth : Int) (h0 : 0 ≤ depth) (h1 : de
 example : Generated.DecodeVarintUnsigned_depthCheck_u32 6 = (some false, 5) ∧
     Generated.DecodeVarintUnsigned_depthCheck_u64 10 = (none, 10) := by decide
 
+open Generated in
+/-- `ans_read_init` on any buffer `pre ++ [top]` whose last byte announces size class 0: failure ↔ the model's `none`;
+    on success the state and `buf_offset` are the model's (`Generated.ansInitAgrees`) -/
+theorem source_ansReadInit_is_model_x0 (a : Generated.AnsDecoder) (pre : List Nat) (top : Nat)
+    (hpre : ∀ b ∈ pre, b < 256) (htop : top < 256) (hx : top / 64 = 0) (hlen : pre.length + 1 < 2^31) :
+    ansInitAgrees (ans_read_init a (bufOf (pre ++ [top])) ((pre ++ [top]).length : Nat)) (ansReadInit (pre ++ [top])) :=
+  ans_read_init_agrees_x0 a pre top hpre htop hx hlen
+open Generated in
+/-- `ans_read_init` on any buffer `pre ++ [b1, top]` whose last byte announces size class 1: failure ↔ the model's `none`;
+    on success the state and `buf_offset` are the model's (`Generated.ansInitAgrees`) -/
+theorem source_ansReadInit_is_model_x1 (a : Generated.AnsDecoder) (pre : List Nat) (b1 top : Nat)
+    (hpre : ∀ b ∈ pre, b < 256) (hb1 : b1 < 256) (htop : top < 256) (hx : top / 64 = 1) (hlen : pre.length + 2 < 2^31) :
+    ansInitAgrees (ans_read_init a (bufOf (pre ++ [b1, top])) ((pre ++ [b1, top]).length : Nat)) (ansReadInit (pre ++ [b1, top])) :=
+  ans_read_init_agrees_x1 a pre b1 top hpre hb1 htop hx hlen
+open Generated in
+/-- `ans_read_init` on any buffer `pre ++ [b2, b1, top]` whose last byte announces size class 2: failure ↔ the model's `none`;
+    on success the state and `buf_offset` are the model's (`Generated.ansInitAgrees`) -/
+theorem source_ansReadInit_is_model_x2 (a : Generated.AnsDecoder) (pre : List Nat) (b2 b1 top : Nat)
+    (hpre : ∀ b ∈ pre, b < 256) (hb2 : b2 < 256) (hb1 : b1 < 256) (htop : top < 256) (hx : top / 64 = 2) (hlen : pre.length + 3 < 2^31) :
+    ansInitAgrees (ans_read_init a (bufOf (pre ++ [b2, b1, top])) ((pre ++ [b2, b1, top]).length : Nat)) (ansReadInit (pre ++ [b2, b1, top])) :=
+  ans_read_init_agrees_x2 a pre b2 b1 top hpre hb2 hb1 htop hx hlen
+example : Generated.ansInitAgrees (Generated.ans_read_init ⟨0, 0⟩ (Generated.bufOf ([9] ++ [64, 64])) (3 : Nat))
+    (ansReadInit ([9] ++ [64, 64])) :=
+  source_ansReadInit_is_model_x1 _ [9] 64 64 (by decide) (by decide) (by decide) (by decide) (by decide)
+
 end Draco.C17
